@@ -117,6 +117,10 @@ class Fill(CellModifierInput):
             trans_data = value["data"][
                 list(value["data"]).index("(") + 1 : list(value["data"]).index(")") - 1
             ]
+            # padding directly after the parenthesis is not part of the transformation
+            for node in list(trans_data.nodes):
+                if isinstance(node, syntax_node.PaddingNode):
+                    trans_data.remove(node)
             if len(trans_data) == 1:
                 try:
                     transform = trans_data[0]
